@@ -119,7 +119,7 @@ type ReadResult struct {
 }
 
 // ReadAllMessages runs a read program until the first error.
-// prog 0: ReadMessage; prog 1: NextReader + Read(bufsize).
+// prog 0: ReadMessage; prog 1: NextReader + Read(bufsize); prog 2/3: every message abandoned.
 func ReadAllMessages(c *websocket.Conn, prog, bufsize, max int) ReadResult {
 	var rr ReadResult
 	for i := 0; i < max; i++ {
@@ -132,6 +132,23 @@ func ReadAllMessages(c *websocket.Conn, prog, bufsize, max int) ReadResult {
 				return rr
 			}
 			rr.Msgs = append(rr.Msgs, wsref.Message{Type: t, Payload: p})
+		case 2, 3:
+			// abandon every message: right after NextReader (2) or after reading one byte (3);
+			// Msgs then lists the messages that were started (type only)
+			t, r, err := c.NextReader()
+			if err != nil {
+				rr.Err = err
+				rr.FromNext = true
+				return rr
+			}
+			if prog == 3 {
+				var one [1]byte
+				if _, err := r.Read(one[:]); err != nil && err != io.EOF {
+					rr.Err, rr.PartT = err, t
+					return rr
+				}
+			}
+			rr.Msgs = append(rr.Msgs, wsref.Message{Type: t})
 		default:
 			t, r, err := c.NextReader()
 			if err != nil {
